@@ -521,7 +521,7 @@ func CheckC20(run *evid.Run) {
 		if len(ids) > 128 || len(inst) > 2 {
 			run.NonTrivial(fmt.Sprintf("ids%d/inst%d/restarts%d", bucket(len(ids)/8), len(inst), bucket(restarts)))
 		}
-		if i < 2 {
+		if i < 2 || run.NumSamples() < 2 {
 			run.Sample(wit())
 		}
 	})
